@@ -25,6 +25,9 @@ const (
 	// fatal error: stack overflow. Was 250k but adding a log
 	// in Error() makes it go over that (somehow).
 	DefaultMaxDepth    = 150_000
+	// Maximum total nesting of evaluation steps (calls, blocks, literals, operands), whatever MaxDepth is:
+	// keeps the Go stack under its 1GB limit when each call level nests many blocks.
+	MaxNesting = 250_000
 	DefaultMaxDuration = 10 * time.Second
 )
 
@@ -42,6 +45,7 @@ type State struct {
 	// note that a simple function consumes at least 2 levels and typically at least 3 or 4.
 	MaxDepth    int
 	depth       int // current depth / recursion level
+	nesting     int // current nesting of evalInternal calls, see MaxNesting.
 	lastNumSet  int64
 	MaxValueLen int // max length of value to save in files, <= 0 for unlimited.
 	// To enforce a max duration or cancel evals.
@@ -86,6 +90,7 @@ func NewBlankState() *State {
 func (s *State) Reset() {
 	s.env = s.rootEnv
 	s.depth = 0
+	s.nesting = 0
 }
 
 // RegisterTrie sets up the Trie to record all top level ids and functions.
